@@ -15,3 +15,5 @@ PROPERTY_RULES["C20"] = ["r24_count", "r15_fail", "r15c_ignored", "r23_detcheck"
 PROPERTY_RULES["C02"] = ["r25_loops"]
 PROPERTY_RULES["C07"] = ["r27_mirror"]
 PROPERTY_RULES["C03"] = ["r01_leak", "r08_index", "r09_bounds"]
+PROPERTY_RULES["C03"] = ["r01_leak", "r08_index", "r09_bounds", "r12_sprintf"]
+PROPERTY_RULES["C07"] = ["r27_mirror", "r12_sprintf"]
